@@ -15,8 +15,11 @@
      (per-instance FIFO order is exactly the channel's order);
    - loops over a Go map (all sessions of a topic, all subscriptions of a session) are written
      point-wise over the session/instance functions;
-   - group topics; {del what=topic} is issued by the owner; the subscription rows of the store,
-     access control, presence, p2p, 'me', account deletion are not in this model (the driver
+   - group topics, with or without channel functionality (Topic.isChan), addressed by the group
+     name or by the channel name (grpXXX / chnXXX: both expand to the same hub name; the name
+     form travels in msg.Original and decides asChan, topic.go:3756-3764); {del what=topic} is
+     issued by the owner; the subscription rows of the store, access control, the per-user
+     online counters, presence, p2p, 'me', account deletion are not in this model (the driver
      exercises them on the real code);
    - a topic NAME can have several INSTANCES over time (unload + reload); Session.subs points
      to the instance whose channels it holds, exactly like the Go Subscription struct. *)
@@ -31,10 +34,11 @@ Definition uid := nat.
 
 Inductive rkind := KSub | KLeave (unsub : bool) | KDel.
 
-(* a ClientComMessage travelling through join / reg / unreg; r_init = msg.init *)
-Record req := mkReq { r_sid : sid; r_rid : rid; r_kind : rkind; r_topic : tid; r_init : bool }.
+(* a ClientComMessage travelling through join / reg / unreg; r_init = msg.init;
+   r_aschan = types.IsChannel(msg.Original): the client wrote chnXXX *)
+Record req := mkReq { r_sid : sid; r_rid : rid; r_kind : rkind; r_topic : tid; r_init : bool; r_aschan : bool }.
 
-Inductive code := COk | CAlready | CNotJoined | CAttachFirst | CLocked | CNotFound | CDenied | CNoAction | CEvicted.
+Inductive code := COk | CAlready | CNotJoined | CAttachFirst | CLocked | CNotFound | CDenied | CNoAction | CEvicted | CUseOther.
 
 (* ghost outbox entry: ctrl with the request id (None: unsolicited notice), code, topic *)
 Record reply := mkRep { p_rid : option rid; p_code : code; p_topic : tid }.
@@ -53,7 +57,8 @@ Record tinst := mkInst {
   i_name : tid;
   i_sessions : list sid;        (* Topic.sessions *)
   i_phase : phase;              (* PInit: topicInit goroutine, paused; PRun: run loop; PDead: no goroutine *)
-  i_deleted : bool }.           (* topicStatusMarkedDeleted *)
+  i_deleted : bool;             (* topicStatusMarkedDeleted *)
+  i_chansub : list sid }.       (* the sessions of Topic.sessions whose perSessionData.isChanSub is set *)
 
 Inductive hmsg := HUnload (t : tid) | HDel (r : req).
 
@@ -71,11 +76,12 @@ Record config := mkCfg {
   c_store : tid -> bool;              (* the topic row exists *)
   c_owner : tid -> uid;
   c_user : sid -> uid;
-  c_nextrid : rid }.
+  c_nextrid : rid;
+  c_ischan : tid -> bool }.           (* Topic.isChan, loaded from the topic row (UseBt): channel functionality enabled *)
 
 Inductive label :=
-| ClientSub (s : sid) (t : tid)
-| ClientLeave (s : sid) (t : tid) (unsub : bool)
+| ClientSub (s : sid) (t : tid) (ch : bool)                  (* ch: the topic is written chnXXX *)
+| ClientLeave (s : sid) (t : tid) (unsub : bool) (ch : bool)
 | ClientDel (s : sid) (t : tid)
 | HubJoin
 | InitDone (i : inst) (ok : bool)
@@ -131,40 +137,40 @@ Definition upd {A : Type} (f : nat -> A) (k : nat) (v : A) : nat -> A :=
 
 Definition set_sess (c : config) (f : sid -> sess) : config :=
   mkCfg f (c_inst c) (c_next c) (c_table c) (c_hjoin c) (c_hunreg c) (c_inits c) (c_treg c) (c_tunreg c)
-        (c_texit c) (c_store c) (c_owner c) (c_user c) (c_nextrid c).
+        (c_texit c) (c_store c) (c_owner c) (c_user c) (c_nextrid c) (c_ischan c).
 Definition set_inst (c : config) (f : inst -> tinst) : config :=
   mkCfg (c_sess c) f (c_next c) (c_table c) (c_hjoin c) (c_hunreg c) (c_inits c) (c_treg c) (c_tunreg c)
-        (c_texit c) (c_store c) (c_owner c) (c_user c) (c_nextrid c).
+        (c_texit c) (c_store c) (c_owner c) (c_user c) (c_nextrid c) (c_ischan c).
 Definition set_next (c : config) (n : inst) : config :=
   mkCfg (c_sess c) (c_inst c) n (c_table c) (c_hjoin c) (c_hunreg c) (c_inits c) (c_treg c) (c_tunreg c)
-        (c_texit c) (c_store c) (c_owner c) (c_user c) (c_nextrid c).
+        (c_texit c) (c_store c) (c_owner c) (c_user c) (c_nextrid c) (c_ischan c).
 Definition set_table (c : config) (f : tid -> option inst) : config :=
   mkCfg (c_sess c) (c_inst c) (c_next c) f (c_hjoin c) (c_hunreg c) (c_inits c) (c_treg c) (c_tunreg c)
-        (c_texit c) (c_store c) (c_owner c) (c_user c) (c_nextrid c).
+        (c_texit c) (c_store c) (c_owner c) (c_user c) (c_nextrid c) (c_ischan c).
 Definition set_hjoin (c : config) (l : list req) : config :=
   mkCfg (c_sess c) (c_inst c) (c_next c) (c_table c) l (c_hunreg c) (c_inits c) (c_treg c) (c_tunreg c)
-        (c_texit c) (c_store c) (c_owner c) (c_user c) (c_nextrid c).
+        (c_texit c) (c_store c) (c_owner c) (c_user c) (c_nextrid c) (c_ischan c).
 Definition set_hunreg (c : config) (l : list hmsg) : config :=
   mkCfg (c_sess c) (c_inst c) (c_next c) (c_table c) (c_hjoin c) l (c_inits c) (c_treg c) (c_tunreg c)
-        (c_texit c) (c_store c) (c_owner c) (c_user c) (c_nextrid c).
+        (c_texit c) (c_store c) (c_owner c) (c_user c) (c_nextrid c) (c_ischan c).
 Definition set_inits (c : config) (l : list (inst * req)) : config :=
   mkCfg (c_sess c) (c_inst c) (c_next c) (c_table c) (c_hjoin c) (c_hunreg c) l (c_treg c) (c_tunreg c)
-        (c_texit c) (c_store c) (c_owner c) (c_user c) (c_nextrid c).
+        (c_texit c) (c_store c) (c_owner c) (c_user c) (c_nextrid c) (c_ischan c).
 Definition set_treg (c : config) (l : list (inst * req)) : config :=
   mkCfg (c_sess c) (c_inst c) (c_next c) (c_table c) (c_hjoin c) (c_hunreg c) (c_inits c) l (c_tunreg c)
-        (c_texit c) (c_store c) (c_owner c) (c_user c) (c_nextrid c).
+        (c_texit c) (c_store c) (c_owner c) (c_user c) (c_nextrid c) (c_ischan c).
 Definition set_tunreg (c : config) (l : list (inst * req)) : config :=
   mkCfg (c_sess c) (c_inst c) (c_next c) (c_table c) (c_hjoin c) (c_hunreg c) (c_inits c) (c_treg c) l
-        (c_texit c) (c_store c) (c_owner c) (c_user c) (c_nextrid c).
+        (c_texit c) (c_store c) (c_owner c) (c_user c) (c_nextrid c) (c_ischan c).
 Definition set_texit (c : config) (l : list (inst * bool)) : config :=
   mkCfg (c_sess c) (c_inst c) (c_next c) (c_table c) (c_hjoin c) (c_hunreg c) (c_inits c) (c_treg c) (c_tunreg c)
-        l (c_store c) (c_owner c) (c_user c) (c_nextrid c).
+        l (c_store c) (c_owner c) (c_user c) (c_nextrid c) (c_ischan c).
 Definition set_store (c : config) (f : tid -> bool) : config :=
   mkCfg (c_sess c) (c_inst c) (c_next c) (c_table c) (c_hjoin c) (c_hunreg c) (c_inits c) (c_treg c) (c_tunreg c)
-        (c_texit c) f (c_owner c) (c_user c) (c_nextrid c).
+        (c_texit c) f (c_owner c) (c_user c) (c_nextrid c) (c_ischan c).
 Definition set_nextrid (c : config) (n : rid) : config :=
   mkCfg (c_sess c) (c_inst c) (c_next c) (c_table c) (c_hjoin c) (c_hunreg c) (c_inits c) (c_treg c) (c_tunreg c)
-        (c_texit c) (c_store c) (c_owner c) (c_user c) n.
+        (c_texit c) (c_store c) (c_owner c) (c_user c) n (c_ischan c).
 
 (* Session.queueOut: dropped once the session is terminating (session.go:318) *)
 Definition s_reply (x : sess) (p : reply) : sess :=
@@ -188,9 +194,16 @@ Definition on_sess (c : config) (s : sid) (f : sess -> sess) : config :=
 Definition on_inst (c : config) (i : inst) (f : tinst -> tinst) : config :=
   set_inst c (upd (c_inst c) i (f (c_inst c i))).
 
-Definition i_setsessions (x : tinst) (l : list sid) : tinst := mkInst (i_name x) l (i_phase x) (i_deleted x).
-Definition i_setphase (x : tinst) (p : phase) : tinst := mkInst (i_name x) (i_sessions x) p (i_deleted x).
-Definition i_setdeleted (x : tinst) : tinst := mkInst (i_name x) (i_sessions x) (i_phase x) true.
+Definition i_setsessions (x : tinst) (l : list sid) : tinst := mkInst (i_name x) l (i_phase x) (i_deleted x) (i_chansub x).
+Definition i_setphase (x : tinst) (p : phase) : tinst := mkInst (i_name x) (i_sessions x) p (i_deleted x) (i_chansub x).
+Definition i_setdeleted (x : tinst) : tinst := mkInst (i_name x) (i_sessions x) (i_phase x) true (i_chansub x).
+Definition i_setchansub (x : tinst) (l : list sid) : tinst := mkInst (i_name x) (i_sessions x) (i_phase x) (i_deleted x) l.
+
+(* Topic.verifyChannelAccess(msg.Original) (topic.go:3756-3764) -> (asChan, err): a name that is not a channel
+   name: (false, nil); a channel name on a channel-enabled topic: (true, nil); a channel name on a topic
+   without channel functionality: (false, ErrNotFound) *)
+Definition verify_chan (c : config) (t : tid) (r : req) : bool * bool :=
+  if r_aschan r then (if c_ischan c t then (true, false) else (false, true)) else (false, false).
 
 Definition rep (r : req) (cd : code) : reply := mkRep (Some (r_rid r)) cd (r_topic r).
 
@@ -219,25 +232,77 @@ Fixpoint drain_unreg (i : inst) (l : list (inst * req)) (f : sid -> sess) : list
 Definition requeue_reg (i : inst) (l : list (inst * req)) : list (inst * req) * list req :=
   (filter (fun x => negb (Nat.eqb i (fst x))) l, map snd (filter (fun x => Nat.eqb i (fst x)) l)).
 
+(* ---------- Topic.unreg: unregisterSession / handleLeaveRequest ----------
+   topic.go:298-329, 689-827 handleLeaveRequest, 3226-3306 replyLeaveUnsub, 3309-3357 evictUser.
+   [unreg_step] is the function from l.705 on: the message is taken from Topic.unreg and processed;
+   asChan / err are what verifyChannelAccess returned at l.692-703 (see the TopicUnreg step below). *)
+Definition unreg_step (c : config) (i : inst) (asChan err : bool) : option config :=
+  if negb (is_run (i_phase (c_inst c i))) then None else
+  match take_first i (c_tunreg c) with
+  | None => None
+  | Some (r, unreg') =>
+      let c := set_tunreg c unreg' in
+      let s := r_sid r in
+      let y := c_inst c i in
+      let t := i_name y in
+      let c :=
+        if inactive y then
+          (if r_init r then on_sess c s (fun x => s_reply x (rep r CLocked)) else c)
+        else match r_init r, r_kind r with
+             | true, KLeave true =>
+                 if Nat.eqb (c_user c s) (c_owner c t) then on_sess c s (fun x => s_reply x (rep r CDenied))
+                 else if err then
+                   (* replyLeaveUnsub l.3243-3250 repeats verifyChannelAccess: a second 404 *)
+                   on_sess c s (fun x => s_reply x (rep r CNotFound))
+                 else
+                   let u := c_user c s in
+                   let gone := fun s' => mem s' (i_sessions y) && Nat.eqb (c_user c s') u in
+                   let c := on_sess c s (fun x => s_reply x (rep r COk)) in
+                   let c := set_sess c (fun s' =>
+                              let x := c_sess c s' in
+                              if gone s' then
+                                let x := s_detach x t in
+                                if Nat.eqb s' s then x else s_reply x (mkRep None CEvicted t)
+                              else x) in
+                   on_inst c i (fun y => i_setchansub (i_setsessions y (filter (fun s' => negb (gone s')) (i_sessions y)))
+                                                      (filter (fun s' => negb (gone s')) (i_chansub y)))
+             | _, _ =>
+                 if mem s (i_sessions y) then
+                   (* l.721-731: remSession; sess.delSub(t.name); THEN the name-form check: a subscription attached
+                      under the channel name addressed by the group name or vice versa (and every channel
+                      subscription dropped by the server, asChan = false) is answered 404 - after both sides
+                      have been detached *)
+                   let c := on_inst c i (fun y => i_setchansub (i_setsessions y (remove_nat s (i_sessions y)))
+                                                               (remove_nat s (i_chansub y))) in
+                   on_sess c s (fun x =>
+                                  let x := s_setsubs x (remove_key t (s_subs x)) in
+                                  if r_init r
+                                  then s_reply x (rep r (if Bool.eqb (mem s (i_chansub y)) asChan then COk else CNotFound))
+                                  else x)
+                 else c    (* not attached any more (evicted meanwhile): no reply at all *)
+             end in
+      Some (if r_init r then on_sess c s s_donereq else c)
+  end.
+
 (* ---------- the steps ---------- *)
 
 Definition exec (l : label) (c : config) : option config :=
   match l with
-  | ClientSub s t =>
+  | ClientSub s t ch =>
       (* session.go:617-647 *)
       let x := c_sess c s in
       if s_term x || negb (Nat.eqb (s_inflight x) 0) then None else
-      let r := mkReq s (c_nextrid c) KSub t true in
+      let r := mkReq s (c_nextrid c) KSub t true ch in
       let c := set_nextrid c (S (c_nextrid c)) in
       match lookup t (s_subs x) with
       | Some _ => Some (on_sess c s (fun x => s_reply x (rep r CAlready)))
       | None => Some (set_hjoin (on_sess c s s_addreq) (c_hjoin c ++ [r]))
       end
-  | ClientLeave s t u =>
+  | ClientLeave s t u ch =>
       (* session.go:650-682 *)
       let x := c_sess c s in
       if s_term x || negb (Nat.eqb (s_inflight x) 0) then None else
-      let r := mkReq s (c_nextrid c) (KLeave u) t true in
+      let r := mkReq s (c_nextrid c) (KLeave u) t true ch in
       let c := set_nextrid c (S (c_nextrid c)) in
       match lookup t (s_subs x) with
       | Some j => Some (set_tunreg (on_sess c s s_addreq) (c_tunreg c ++ [(j, r)]))
@@ -247,7 +312,7 @@ Definition exec (l : label) (c : config) : option config :=
       (* session.go:1214-1228; model scope: the owner deletes *)
       let x := c_sess c s in
       if s_term x || negb (Nat.eqb (c_user c s) (c_owner c t)) then None else
-      let r := mkReq s (c_nextrid c) KDel t true in
+      let r := mkReq s (c_nextrid c) KDel t true false in
       Some (set_hunreg (set_nextrid c (S (c_nextrid c))) (c_hunreg c ++ [HDel r]))
   | HubJoin =>
       (* hub.go:154-220 *)
@@ -258,7 +323,7 @@ Definition exec (l : label) (c : config) : option config :=
           match c_table c (r_topic r) with
           | None =>
               let i := c_next c in
-              let c := set_inst c (upd (c_inst c) i (mkInst (r_topic r) [] PInit false)) in
+              let c := set_inst c (upd (c_inst c) i (mkInst (r_topic r) [] PInit false [])) in
               let c := set_table c (upd (c_table c) (r_topic r) (Some i)) in
               Some (set_inits (set_next c (S i)) (c_inits c ++ [(i, r)]))
           | Some i =>
@@ -301,7 +366,7 @@ Definition exec (l : label) (c : config) : option config :=
             end
       end
   | TopicReg i ok =>
-      (* topic.go:333-363 *)
+      (* topic.go:333-363 registerSession, 623-685 handleSubscription, 1394-1400 addSub / addSession(sess, asUid, asChan) *)
       if negb (is_run (i_phase (c_inst c i))) then None else
       match take_first i (c_treg c) with
       | None => None
@@ -314,56 +379,43 @@ Definition exec (l : label) (c : config) : option config :=
             else match lookup t (s_subs (c_sess c s)) with
                  | Some _ => on_sess c s (fun x => s_reply x (rep r CAlready))
                  | None =>
-                     if ok then
+                     let '(asChan, err) := verify_chan c t r in
+                     if err then
+                       (* l.626-631: a topic without channel functionality addressed as a channel *)
+                       on_sess c s (fun x => s_reply x (rep r CNotFound))
+                     else if ok then
                        let c := on_sess c s (fun x => s_reply (s_setsubs x ((t, i) :: s_subs x)) (rep r COk)) in
-                       on_inst c i (fun y => i_setsessions y (if mem s (i_sessions y) then i_sessions y else s :: i_sessions y))
-                     else on_sess c s (fun x => s_reply x (rep r CDenied))
+                       (* addSession: an existing entry is left as it is *)
+                       on_inst c i (fun y => i_setchansub
+                                               (i_setsessions y (if mem s (i_sessions y) then i_sessions y else s :: i_sessions y))
+                                               (if mem s (i_sessions y) then i_chansub y
+                                                else if asChan then s :: i_chansub y else i_chansub y))
+                     else
+                       (* thisUserSub refuses (the per-user records are not in this model: [ok] is any outcome):
+                          a channel name used by a group subscriber: 303 "use the group name" (l.1646-1652);
+                          a group name without the J permission: 403 (l.1590-1593) *)
+                       on_sess c s (fun x => s_reply x (rep r (if asChan then CUseOther else CDenied)))
                  end in
           Some (on_sess c s s_donereq)
       end
   | TopicUnreg i =>
-      (* topic.go:298-329, 689-827 handleLeaveRequest, 3226-3306 replyLeaveUnsub, 3309-3357 evictUser *)
-      if negb (is_run (i_phase (c_inst c i))) then None else
+      (* the message at the head of Topic.unreg.  l.692-703: asChan is computed for client requests only; on an
+         error (a topic without channel functionality addressed as a channel) the 404 is queued and the
+         function GOES ON (no return): [unreg_step] *)
       match take_first i (c_tunreg c) with
       | None => None
-      | Some (r, unreg') =>
-          let c := set_tunreg c unreg' in
-          let s := r_sid r in
-          let y := c_inst c i in
-          let t := i_name y in
-          let c :=
-            if inactive y then
-              (if r_init r then on_sess c s (fun x => s_reply x (rep r CLocked)) else c)
-            else match r_init r, r_kind r with
-                 | true, KLeave true =>
-                     if Nat.eqb (c_user c s) (c_owner c t) then on_sess c s (fun x => s_reply x (rep r CDenied))
-                     else
-                       let u := c_user c s in
-                       let gone := fun s' => mem s' (i_sessions y) && Nat.eqb (c_user c s') u in
-                       let c := on_sess c s (fun x => s_reply x (rep r COk)) in
-                       let c := set_sess c (fun s' =>
-                                  let x := c_sess c s' in
-                                  if gone s' then
-                                    let x := s_detach x t in
-                                    if Nat.eqb s' s then x else s_reply x (mkRep None CEvicted t)
-                                  else x) in
-                       on_inst c i (fun y => i_setsessions y (filter (fun s' => negb (gone s')) (i_sessions y)))
-                 | _, _ =>
-                     if mem s (i_sessions y) then
-                       let c := on_inst c i (fun y => i_setsessions y (remove_nat s (i_sessions y))) in
-                       on_sess c s (fun x =>
-                                      let x := s_setsubs x (remove_key t (s_subs x)) in
-                                      if r_init r then s_reply x (rep r COk) else x)
-                     else c    (* not attached any more (evicted meanwhile): no reply at all *)
-                 end in
-          Some (if r_init r then on_sess c s s_donereq else c)
+      | Some (r, _) =>
+          let '(asChan, err) := if r_init r then verify_chan c (i_name (c_inst c i)) r else (false, false) in
+          unreg_step (if err then on_sess c (r_sid r) (fun x => s_reply x (rep r CNotFound)) else c) i asChan err
       end
   | Evict i s =>
       (* topic.go:1326-1337: queueOut failed -> unregisterSession(init:false) *)
       let y := c_inst c i in
       if negb (is_run (i_phase y)) || negb (mem s (i_sessions y)) then None else
       if inactive y then Some c else
-      let c := on_inst c i (fun y => i_setsessions y (remove_nat s (i_sessions y))) in
+      (* handleLeaveRequest with init = false: remSession, delSub; (asChan = false: a channel subscription then
+         takes the early return of l.724-731, which only skips the per-user accounting) *)
+      let c := on_inst c i (fun y => i_setchansub (i_setsessions y (remove_nat s (i_sessions y))) (remove_nat s (i_chansub y))) in
       Some (on_sess c s (fun x => s_setsubs x (remove_key (i_name y) (s_subs x))))
   | IdleTimeout i =>
       (* topic.go:493-503 (the kill timer is armed only while no session is attached) *)
@@ -433,18 +485,18 @@ Definition exec (l : label) (c : config) : option config :=
       (* session.go:415-427: inflightReqs.Wait() returned; unsubAll *)
       let x := c_sess c s in
       if negb (s_term x) || s_done x || negb (Nat.eqb (s_inflight x) 0) then None else
-      let c := set_tunreg c (c_tunreg c ++ map (fun tj => (snd tj, mkReq s 0 (KLeave false) (fst tj) false)) (s_subs x)) in
+      let c := set_tunreg c (c_tunreg c ++ map (fun tj => (snd tj, mkReq s 0 (KLeave false) (fst tj) false false)) (s_subs x)) in
       Some (on_sess c s (fun x => mkSess (s_subs x) (s_inflight x) true true (s_out x) (s_detachq x)))
   end.
 
 Definition step (c : config) (l : label) (c' : config) : Prop := exec l c = Some c'.
 
 Definition sess0 : sess := mkSess [] 0 false false [] [].
-Definition inst0 : tinst := mkInst 0 [] PDead false.
+Definition inst0 : tinst := mkInst 0 [] PDead false [].
 
 (* every topic named in [stored] exists in the store; nothing is loaded; no session is attached *)
-Definition init_config (stored : tid -> bool) (owner : tid -> uid) (user : sid -> uid) : config :=
-  mkCfg (fun _ => sess0) (fun _ => inst0) 0 (fun _ => None) [] [] [] [] [] [] stored owner user 1.
+Definition init_config (stored : tid -> bool) (owner : tid -> uid) (user : sid -> uid) (ischan : tid -> bool) : config :=
+  mkCfg (fun _ => sess0) (fun _ => inst0) 0 (fun _ => None) [] [] [] [] [] [] stored owner user 1 ischan.
 
 Fixpoint run (ls : list label) (c : config) : option config :=
   match ls with
@@ -461,12 +513,12 @@ Definition nil_done_block (c : config) (l : label) : bool :=
   end.
 
 Inductive reach (stored : tid -> bool) (owner : tid -> uid) (user : sid -> uid) : config -> Prop :=
-| reach_init : reach stored owner user (init_config stored owner user)
+| reach_init : forall ischan, reach stored owner user (init_config stored owner user ischan)   (* any set of channel-enabled topics *)
 | reach_step : forall c l c', reach stored owner user c -> step c l c' -> reach stored owner user c'.
 
 (* executions in which that one step does not occur *)
 Inductive reach_safe (stored : tid -> bool) (owner : tid -> uid) (user : sid -> uid) : config -> Prop :=
-| rs_init : reach_safe stored owner user (init_config stored owner user)
+| rs_init : forall ischan, reach_safe stored owner user (init_config stored owner user ischan)
 | rs_step : forall c l c', reach_safe stored owner user c -> nil_done_block c l = false -> step c l c' ->
                            reach_safe stored owner user c'.
 
